@@ -1,7 +1,7 @@
 """C48 - pending changes survive the application dropping its references.
 
 Case format (tree):  [rows, nslots, ops]
-  rows    initial committed rows of t(id, val): [[id, val], ...]
+  rows    initial committed rows of t(id, val, w): [[id, val, w], ...]
   nslots  number of application variables (slots); every reference the harness holds lives in a slot
   ops     [0,i,k] slot i = session.get(T, k)        [1,i] slot i = T(id=fresh, val=fresh); session.add
           [2,i]   slot i .val = fresh value          [3,i] slot i = None
@@ -9,6 +9,10 @@ Case format (tree):  [rows, nslots, ops]
           [7,i]   session.expire(slot i)  (only if persistent)                  [8] session.expire_all()
           [9,i]   session.delete(slot i)  (only if persistent)
           [10,i,j] slot i .buddy = slot j   (an unmapped attribute: a plain reference between objects)
+          [11,i]  slot i .w = fresh value   (second column)
+          [12,i]  in-place change of val, registered the way sqlalchemy.ext.mutable does it:
+                  inspect(slot i).dict['val'] = fresh; attributes.flag_modified(slot i, 'val')   (only if val is loaded)
+          [13,i,w] session.expire(slot i, ['w' if w else 'val'])  (only if persistent): partial expire
 Observation per operation (coq/orm/WeakRefRun.v):
   [rc, bit mask of the live objects in creation order (harness-held weakrefs), slot contents (object
    index or -1), sorted primary keys of session.identity_map, len(session.new), len(session.dirty),
@@ -78,7 +82,7 @@ ANCHORS = [
     ("lib/sqlalchemy/orm/loading.py", "get_from_identity"),
 ]
 
-LOAD, NEW, SET, DROP, GC, FLUSH, COMMIT, EXPIRE, EXPALL, DELETE, LINK = range(11)
+LOAD, NEW, SET, DROP, GC, FLUSH, COMMIT, EXPIRE, EXPALL, DELETE, LINK, SETW, MUT, EXPATTR = range(14)
 
 
 # ------------------------------------------------------------------------------ translate (pin + T2)
@@ -142,11 +146,11 @@ def translate(repo, outdir):
         "Definition gen_modev_strong (a_sess a_strong a_modified : bool) : bool := %s.\n"
         "Definition gen_attach_cond (a_sess a_strong a_modified : bool) : bool := %s.\n"
         "Lemma gen_modev_cond_ok : forall ob, gen_modev_cond (sess ob) (strong ob) (modified ob) = modev_cond ob.\n"
-        "Proof. intros [? ? ? [] ? ? ? ? [] [] ? ? ? ?]; reflexivity. Qed.\n"
+        "Proof. intros [? ? ? [] ? ? ? ? [] [] ? ? ? ? ? ?]; reflexivity. Qed.\n"
         "Lemma gen_modev_strong_ok : forall ob, gen_modev_strong (sess ob) (strong ob) (modified ob) = sess ob.\n"
-        "Proof. intros [? ? ? [] ? ? ? ? [] [] ? ? ? ?]; reflexivity. Qed.\n"
+        "Proof. intros [? ? ? [] ? ? ? ? [] [] ? ? ? ? ? ?]; reflexivity. Qed.\n"
         "Lemma gen_attach_cond_ok : forall ob, gen_attach_cond (sess ob) (strong ob) (modified ob) = attach_cond ob.\n"
-        "Proof. intros [? ? ? [] ? ? ? ? [] [] ? ? ? ?]; reflexivity. Qed.\n"
+        "Proof. intros [? ? ? [] ? ? ? ? [] [] ? ? ? ? ? ?]; reflexivity. Qed.\n"
         % (_bool_expr(outer.test, names), _bool_expr(inner.test, names), _bool_expr(att.test, names))
     )
     p = os.path.join(outdir, "Gen_C48.v")
@@ -157,6 +161,8 @@ def translate(repo, outdir):
 
 # ------------------------------------------------------------------------------ generation
 ONE = [[LOAD, 0, 1], [NEW, 0], [SET, 0], [DROP, 0], [GC], [FLUSH], [COMMIT], [EXPIRE, 0], [EXPALL], [DELETE, 0], [LINK, 0, 0]]
+ROWS1 = [[1, 10, 5]]
+ROWS2 = [[1, 10, 5], [2, 20, 6]]
 
 
 def _family():
@@ -170,7 +176,7 @@ def _family():
             ):
                 for fl in ([[FLUSH]], [[COMMIT]], [[LOAD, 1, 3]], [[GC], [FLUSH], [GC]], [[EXPALL], [FLUSH]], []):
                     ops = start + mod + lose + fl + [[LOAD, 0, 1], [LOAD, 1, 4], [COMMIT], [GC]]
-                    yield {"in": [[[1, 10], [2, 20]], 2, [list(o) for o in ops]], "kind": "modify-drop-flush"}
+                    yield {"in": [ROWS2, 2, [list(o) for o in ops]], "kind": "modify-drop-flush"}
 
 
 def _family2():
@@ -179,19 +185,38 @@ def _family2():
         for body in itertools.permutations([[SET, 0], [SET, 1], [DROP, 0], [DROP, 1], [GC]]):
             for fin in ([FLUSH], [COMMIT]):
                 ops = start + [list(o) for o in body] + [fin, [LOAD, 0, 1], [LOAD, 1, 2], [LOAD, 0, 3]]
-                yield {"in": [[[1, 10], [2, 20]], 2, [list(o) for o in ops]], "kind": "two-objects"}
+                yield {"in": [ROWS2, 2, [list(o) for o in ops]], "kind": "two-objects"}
+
+
+def _family3():
+    """the ONLY pending changes are in-place ones (flag_modified) and / or changes to two attributes of which one is
+    expired again (partial expire); then every reference is dropped, collection, flush"""
+    mods = ([[MUT, 0]], [[MUT, 0], [MUT, 0]], [[SETW, 0], [MUT, 0]], [[SET, 0], [SETW, 0], [EXPATTR, 0, 1]],
+            [[SET, 0], [SETW, 0], [EXPATTR, 0, 0]], [[SETW, 0], [EXPATTR, 0, 1]], [[MUT, 0], [SETW, 0], [EXPATTR, 0, 1]],
+            [[SETW, 0], [EXPATTR, 0, 0]], [[SET, 0], [EXPATTR, 0, 0], [MUT, 0]], [[SET, 0], [SETW, 0], [EXPATTR, 0, 1], [EXPATTR, 0, 0]],
+            [[EXPATTR, 0, 0], [SETW, 0]], [[LOAD, 1, 1], [MUT, 1], [SETW, 0], [EXPATTR, 1, 1]])
+    for start in ([[LOAD, 0, 1]], [[NEW, 0]], [[LOAD, 0, 1], [COMMIT]], [[NEW, 0], [FLUSH]], [[LOAD, 0, 1], [COMMIT], [LOAD, 0, 1]],
+                  [[LOAD, 0, 1], [LOAD, 1, 2], [SET, 1]]):
+        for mod in mods:
+            for lose in ([[DROP, 0], [DROP, 1]], [[DROP, 0], [DROP, 1], [GC]], [[LINK, 0, 0], [DROP, 0], [DROP, 1], [GC]], [[GC]]):
+                for fl in ([[FLUSH]], [[COMMIT]], [[LOAD, 1, 3]]):
+                    ops = start + mod + lose + fl + [[LOAD, 0, 1], [MUT, 0], [DROP, 0], [COMMIT]]
+                    yield {"in": [ROWS2, 2, [list(o) for o in ops]], "kind": "inplace-partial-expire"}
 
 
 def _rand(rng, n_ops):
     nrows = rng.randint(0, 4)
-    rows = [[i + 1, 10 * (i + 1)] for i in range(nrows)]
+    rows = [[i + 1, 10 * (i + 1), i + 5] for i in range(nrows)]
     ns = rng.randint(1, 3)
     ops = []
     for _ in range(rng.randint(2, n_ops)):
-        k = rng.choice([LOAD, LOAD, LOAD, NEW, SET, SET, SET, DROP, DROP, DROP, GC, FLUSH, COMMIT, EXPIRE, EXPALL, DELETE, LINK, LINK])
+        k = rng.choice([LOAD, LOAD, LOAD, NEW, SET, SET, SETW, SETW, MUT, MUT, EXPATTR, EXPATTR, DROP, DROP, DROP, GC, FLUSH, COMMIT,
+                        EXPIRE, EXPALL, DELETE, LINK, LINK])
         if k == LOAD:
             ops.append([k, rng.randrange(ns), rng.randint(1, nrows + 2)])
-        elif k in (NEW, SET, DROP, EXPIRE, DELETE):
+        elif k == EXPATTR:
+            ops.append([k, rng.randrange(ns), rng.randint(0, 1)])
+        elif k in (NEW, SET, DROP, EXPIRE, DELETE, SETW, MUT):
             ops.append([k, rng.randrange(ns)])
         elif k == LINK:
             ops.append([k, rng.randrange(ns), rng.randrange(ns)])
@@ -205,11 +230,13 @@ def gen_cases(rng, tier):
     maxlen = 4 if tier == "thorough" else 3
     for n in range(1, maxlen + 1):
         for seq in itertools.product(ONE, repeat=n):
-            cases.append({"in": [[[1, 10]], 1, [list(o) for o in seq]], "kind": "exhaustive-%d" % n})
+            cases.append({"in": [ROWS1, 1, [list(o) for o in seq]], "kind": "exhaustive-%d" % n})
     fam = list(_family())
     cases += fam if tier == "thorough" else rng.sample(fam, 220)
     fam2 = list(_family2())
     cases += fam2 if tier == "thorough" else rng.sample(fam2, 200)
+    fam3 = list(_family3())
+    cases += fam3 if tier == "thorough" else rng.sample(fam3, 350)
     for _ in range(12000 if tier == "thorough" else 700):
         cases.append(_rand(rng, 14))
     return cases
@@ -219,7 +246,7 @@ def nontrivial(c):
     ops = c["in"][2]
     st = 0
     for o in ops:
-        if st == 0 and o[0] in (SET, NEW):
+        if st == 0 and o[0] in (SET, NEW, SETW, MUT):
             st = 1
         elif st == 1 and o[0] == DROP:
             st = 2
@@ -237,6 +264,7 @@ def _env():
         return _ENV
     from sqlalchemy import Column, Integer, create_engine, inspect
     from sqlalchemy.orm import Session, declarative_base
+    from sqlalchemy.orm.attributes import flag_modified
     from sqlalchemy.pool import StaticPool
 
     Base = declarative_base()
@@ -245,15 +273,21 @@ def _env():
         __tablename__ = "t"
         id = Column(Integer, primary_key=True, autoincrement=False)
         val = Column(Integer)
+        w = Column(Integer)
 
     e = create_engine("sqlite://", connect_args={"autocommit": False}, poolclass=StaticPool)
     Base.metadata.create_all(e)
-    _ENV.update(T=T, e=e, Session=Session, inspect=inspect)
+    _ENV.update(T=T, e=e, Session=Session, inspect=inspect, flag_modified=flag_modified)
     with Session(e) as s0:  # warm every cache before the heap is frozen
         s0.add(T(id=1, val=1))
         s0.flush()
-        s0.get(T, 1).val = 2
+        o0 = s0.get(T, 1)
+        o0.val = 2
+        o0.w = 2
+        s0.expire(o0, ["w"])
+        flag_modified(o0, "val")
         s0.commit()
+        del o0
         s0.delete(s0.get(T, 1))
         s0.commit()
     import gc
@@ -274,8 +308,8 @@ def impl(case):
     rows0, nslots, ops = case["in"]
     with e.begin() as c:
         c.exec_driver_sql("delete from t")
-        for pk, v in rows0:
-            c.exec_driver_sql("insert into t values (?,?)", (pk, v))
+        for pk, v, w in rows0:
+            c.exec_driver_sql("insert into t values (?,?,?)", (pk, v, w))
     out = []
     refs = []  # weak references, creation order
 
@@ -295,7 +329,7 @@ def impl(case):
             slots = [None] * nslots
             next_pk = max([r[0] for r in rows0] + [0]) + 1
             next_val = 100
-            prev_db = sorted([r[0], r[1]] for r in rows0)
+            prev_db = sorted([r[0], r[1], r[2]] for r in rows0)
             for op in ops:
                 rc = 0
                 k = op[0]
@@ -347,6 +381,28 @@ def impl(case):
                             rc = 1
                         else:
                             slots[op[1]].buddy = slots[op[2]]
+                    elif k == SETW:
+                        if slots[op[1]] is None:
+                            rc = 1
+                        else:
+                            slots[op[1]].w = next_val
+                            next_val += 1
+                    elif k == MUT:
+                        if slots[op[1]] is None:
+                            rc = 1
+                        elif "val" not in inspect(slots[op[1]]).dict:
+                            rc = 2
+                        else:
+                            inspect(slots[op[1]]).dict["val"] = next_val
+                            E["flag_modified"](slots[op[1]], "val")
+                            next_val += 1
+                    elif k == EXPATTR:
+                        if slots[op[1]] is None:
+                            rc = 1
+                        elif not inspect(slots[op[1]]).persistent:
+                            rc = 2
+                        else:
+                            s.expire(slots[op[1]], ["w" if op[2] else "val"])
                     else:
                         raise ValueError("bad op %r" % (op,))
                 except Exception as exc:  # no operation of the alphabet may raise: report and stop
@@ -356,8 +412,8 @@ def impl(case):
                 sl = [-1 if slots[i] is None else oid_of(slots[i]) for i in range(nslots)]
                 mp = sorted(key[1][0] for key in s.identity_map.keys())
                 db = [
-                    [r[0], -1 if r[1] is None else r[1]]
-                    for r in s.connection().exec_driver_sql("select id, val from t order by id").fetchall()
+                    [r[0], -1 if r[1] is None else r[1], -1 if r[2] is None else r[2]]
+                    for r in s.connection().exec_driver_sql("select id, val, w from t order by id").fetchall()
                 ]
                 out.append([rc, sum(b << i for i, b in enumerate(alive)), sl, mp, len(s.new), len(s.dirty), len(s.deleted), 0 if db == prev_db else db, 0])
                 prev_db = db
@@ -377,46 +433,50 @@ def oracle(case, obs):
     next_pk = max([r[0] for r in rows0] + [0]) + 1
     next_val = 100
     pk_of = {}
-    expect = {}  # primary key -> value its row must show after a flush
+    expect = {}  # (primary key, column 0 = val / 1 = w) -> value the row must show after a flush
     gone = set()  # primary keys marked for deletion: later changes to them need not be written
     prev_sl = [-1] * ns
-    prev_db = dict((r[0], r[1]) for r in rows0)
+    prev_db = dict((r[0], r[1:3]) for r in rows0)
     for n, (op, o) in enumerate(zip(ops, obs)):
         if o[0] == -1:
             return "operation %d %s raised %s: the pending changes were not flushed" % (n, op, "".join(map(chr, o[1])))
         rc, amask, sl, mp, nnew, ndirty, ndel, db, failed = o
         alive = [amask >> i & 1 for i in range(amask.bit_length())]
-        dbd = prev_db if db == 0 else dict((r[0], r[1]) for r in db)
+        dbd = prev_db if db == 0 else dict((r[0], r[1:3]) for r in db)
         k = op[0]
         if k == NEW:
             pk_of[sl[op[1]]] = next_pk
-            expect[next_pk] = next_val
+            expect[(next_pk, 0)] = next_val
             next_pk += 1
             next_val += 1
         elif k == LOAD and rc == 0:
             pk_of.setdefault(sl[op[1]], op[2])
-        elif k == SET and rc == 0:
+        elif k in (SET, SETW, MUT) and rc == 0:
             p = pk_of[prev_sl[op[1]]]
             if p not in gone:
-                expect[p] = next_val
+                expect[(p, 1 if k == SETW else 0)] = next_val
             next_val += 1
         elif k == EXPIRE and rc == 0:
-            expect.pop(pk_of[prev_sl[op[1]]], None)
+            expect.pop((pk_of[prev_sl[op[1]]], 0), None)
+            expect.pop((pk_of[prev_sl[op[1]]], 1), None)
+        elif k == EXPATTR and rc == 0:
+            expect.pop((pk_of[prev_sl[op[1]]], op[2]), None)  # only the named attribute's change is discarded
         elif k == EXPALL:
             for p in list(expect):
-                if p in prev_db:  # persistent: expire_all discards its pending changes
+                if p[0] in prev_db:  # persistent: expire_all discards its pending changes
                     del expect[p]
         elif k == DELETE and rc == 0:
             gone.add(pk_of[prev_sl[op[1]]])
-            expect.pop(pk_of[prev_sl[op[1]]], None)
+            expect.pop((pk_of[prev_sl[op[1]]], 0), None)
+            expect.pop((pk_of[prev_sl[op[1]]], 1), None)
         if k in (FLUSH, COMMIT):
-            for p, v in sorted(expect.items()):
-                if dbd.get(p) != v:
+            for (p, col), v in sorted(expect.items()):
+                if (dbd.get(p) or [None, None])[col] != v:
                     held = any(x >= 0 and pk_of.get(x) == p for x in prev_sl)
                     return (
-                        "operation %d (%s): the change val=%s made to the object with id=%s (%s) "
+                        "operation %d (%s): the change %s=%s made to the object with id=%s (%s) "
                         "is not in the database after the flush: row is %s"
-                        % (n, "flush" if k == FLUSH else "commit", v, p,
+                        % (n, "flush" if k == FLUSH else "commit", "w" if col else "val", v, p,
                            "still referenced" if held else "no application reference left", dbd.get(p))
                     )
         if k == COMMIT:
